@@ -16,6 +16,21 @@ schedules: any number of workers, blocks held anywhere for any time.
 namespace GV.Props.C43
 open GV.Model.Pipeline GV.Proofs.Pipeline
 
+/-- core: if the apply stage is done with every accepted block, nothing accepted so far is
+    applied later -/
+theorem drain_core (c : Cfg) (hc : c.legacy = false) (s : St) (hr : Reachable c s)
+    (h0 : s.counter - processed s = 0) :
+    processed s = s.counter ∧
+    ∀ es s', run c s es = some s' →
+      ∃ rest, s'.applied = s.applied ++ rest ∧ ∀ q ∈ rest, s.counter ≤ q := by
+  have hg := (all_reachable c hc s hr).1
+  have hle := processed_le_counter s hg
+  have heq : processed s = s.counter := by omega
+  refine ⟨heq, ?_⟩
+  intro es s' hrun
+  obtain ⟨_, rest, h1, h2⟩ := run_applied_after c hc es s s' hr hrun
+  exact ⟨rest, h1, fun q hq => by have := h2 q hq; omega⟩
+
 /-- `drain_sound`. In any reachable state in which `PendingCount()` is 0:
     (1) every accepted block (sequence numbers `0 .. counter-1`) has left the apply stage —
         none is in a channel, in a worker, in the runner's hand, buffered or being applied;
@@ -25,14 +40,8 @@ theorem drain_sound (c : Cfg) (hc : c.legacy = false) (s : St) (hr : Reachable c
     (h0 : pendingCount s = 0) :
     processed s = s.counter ∧
     ∀ es s', run c s es = some s' →
-      ∃ rest, s'.applied = s.applied ++ rest ∧ ∀ q ∈ rest, s.counter ≤ q := by
-  have hg := (all_reachable c hc s hr).1
-  have hle := processed_le_counter s hg
-  have heq : processed s = s.counter := by unfold pendingCount at h0; omega
-  refine ⟨heq, ?_⟩
-  intro es s' hrun
-  obtain ⟨_, rest, h1, h2⟩ := run_applied_after c hc es s s' hr hrun
-  exact ⟨rest, h1, fun q hq => by have := h2 q hq; omega⟩
+      ∃ rest, s'.applied = s.applied ++ rest ∧ ∀ q ∈ rest, s.counter ≤ q :=
+  drain_core c hc s hr (by unfold pendingCount seqCounter at h0; omega)
 
 /-- With `PendingCount() = 0` and the pipeline not being stopped, what has been applied is
     exactly the good blocks among ALL accepted ones: nothing submitted before is outstanding. -/
@@ -41,7 +50,7 @@ theorem drained_all_applied (c : Cfg) (hc : c.legacy = false) (s : St) (hr : Rea
     s.applied = okSeqs c s.subs := by
   obtain ⟨hg, hh, hs⟩ := all_reachable c hc s hr
   have hle := processed_le_counter s hg
-  have heq : processed s = s.counter := by unfold pendingCount at h0; omega
+  have heq : processed s = s.counter := by unfold pendingCount seqCounter at h0; omega
   have hlen : s.subs.length = s.counter := by simpa using congrArg List.length hh.subs_seq
   have ha := hh.applied_eq hcn
   have hnl := hg.next_le
@@ -77,7 +86,7 @@ theorem wait_for_drain_sound (c : Cfg) (hc : c.legacy = false) (s s' : St) (hr :
       exact hm
     · simp at hret
   obtain ⟨s0, es0, hr0, hp0, hrun0⟩ := reads_origin c s hr 0 h0
-  obtain ⟨hproc, hfut⟩ := drain_sound c hc s0 hr0 hp0
+  obtain ⟨hproc, hfut⟩ := drain_core c hc s0 hr0 hp0
   refine ⟨s0, es0, hr0, hrun0, hproc, ?_⟩
   intro es s'' hrun
   exact hfut (es0 ++ es) s'' (run_trans c es0 es s0 s s'' hrun0 hrun)
@@ -85,7 +94,7 @@ theorem wait_for_drain_sound (c : Cfg) (hc : c.legacy = false) (s s' : St) (hr :
 /-- the reported count is never below the true one at the moment of the first read -/
 theorem pending_count_never_under_reports (c : Cfg) (s s' : St) (n : Nat) (hr : Reachable c s)
     (hret : step c s (.pb n) = some s') :
-    ∃ s0 es0, Reachable c s0 ∧ run c s0 es0 = some s ∧ pendingCount s0 ≤ n := by
+    ∃ s0 es0, Reachable c s0 ∧ run c s0 es0 = some s ∧ s0.counter - processed s0 ≤ n := by
   have h0 : ∃ p ∈ s.reads, p ≤ n := by
     simp only [step] at hret
     split at hret
@@ -101,7 +110,7 @@ theorem pending_count_never_under_reports (c : Cfg) (s s' : St) (n : Nat) (hr : 
     not count a block held by a decode worker: after `sub, dt` the old count is 0 — WaitForDrain
     would return — and the continuation `dp, at, aq, ap` applies the block afterwards. -/
 theorem legacy_pending_count_misses_worker :
-    (run ⟨false, false⟩ init [.start, .sub ⟨0, true, true⟩, .dt ⟨0, true, true⟩]).map
+    (run ⟨false, false⟩ init [.start, .enter, .acq ⟨0, true, true⟩, .sub ⟨0, true, true⟩, .dt ⟨0, true, true⟩]).map
       (fun s => (pendingCountLegacy s, pendingCount s, s.decW.map Item.seq, s.applied,
         (run ⟨false, false⟩ s [.dp ⟨0, true, true⟩, .at_ ⟨0, true, true⟩, .aq ⟨0, true, true⟩,
           .ap ⟨0, true, true⟩]).map (·.applied)))
@@ -110,7 +119,7 @@ theorem legacy_pending_count_misses_worker :
 /-- the same for a block in the apply runner's hand (received, `ProcessWithStatus` not yet entered) -/
 theorem legacy_pending_count_misses_runner_hand :
     (run ⟨false, false⟩ init
-      [.start, .sub ⟨0, true, true⟩, .dt ⟨0, true, true⟩, .dp ⟨0, true, true⟩, .at_ ⟨0, true, true⟩]).map
+      [.start, .enter, .acq ⟨0, true, true⟩, .sub ⟨0, true, true⟩, .dt ⟨0, true, true⟩, .dp ⟨0, true, true⟩, .at_ ⟨0, true, true⟩]).map
       (fun s => (pendingCountLegacy s, pendingCount s)) = some (0, 1) := by decide
 
 /-- Non-vacuity of `wait_for_drain_sound`: a block is submitted between the two reads of a
@@ -118,14 +127,14 @@ theorem legacy_pending_count_misses_runner_hand :
     call after the block was skipped reports 0. -/
 example :
     (run ⟨false, false⟩ init
-      [.start, .pa 0, .sub ⟨0, false, false⟩, .pb 1, .dt ⟨0, false, false⟩, .dp ⟨0, false, false⟩,
+      [.start, .pa 0, .enter, .acq ⟨0, false, false⟩, .sub ⟨0, false, false⟩, .pb 1, .dt ⟨0, false, false⟩, .dp ⟨0, false, false⟩,
        .at_ ⟨0, false, false⟩, .aq ⟨0, false, false⟩, .pa 0, .ad ⟨0, false, false⟩, .pb 1, .pa 1, .pb 0]).map
       (fun s => (s.reads, pendingCount s)) = some ([], 0) := by decide
 
 /-- Non-vacuity of `drain_sound`: a reachable state with two accepted blocks and count 0. -/
 example :
     (run ⟨false, false⟩ init
-      [.start, .sub ⟨0, true, true⟩, .sub ⟨1, false, false⟩, .dt ⟨0, true, true⟩, .dp ⟨0, true, true⟩,
+      [.start, .enter, .acq ⟨0, true, true⟩, .sub ⟨0, true, true⟩, .enter, .acq ⟨1, false, false⟩, .sub ⟨1, false, false⟩, .dt ⟨0, true, true⟩, .dp ⟨0, true, true⟩,
        .at_ ⟨0, true, true⟩, .aq ⟨0, true, true⟩, .ap ⟨0, true, true⟩, .ad ⟨0, true, true⟩,
        .rs ⟨0, true, true⟩, .dt ⟨1, false, false⟩, .dp ⟨1, false, false⟩, .at_ ⟨1, false, false⟩,
        .aq ⟨1, false, false⟩, .ad ⟨1, false, false⟩]).map
